@@ -1,5 +1,6 @@
 """C09 - no state is revealed to the peer before its monitor update is durable (structural part)."""
 from engine import *
+import obligations
 import re
 import provenance
 
@@ -659,3 +660,4 @@ RULES = [
 	('09.n', 'post-close update ids continue from the last id the channel generated', r09n),
 	('09.y', 'no reviewed function gained a swallowed error (the Result of a fallible in-crate call dropped; rules/provenance.py)', lambda F: provenance.dr_for_property(F, 'C09', '09.y')),
 ]
+RULES.append(('09.u', 'obligation-carrying values returned by workspace calls (to-fail HTLC lists, monitor updates, events, peer messages, claim packages) are never dropped on a path that does not examine them (rules/obligations.py)', lambda F: obligations.for_property(F, 'C09', '09.u')))
